@@ -15,6 +15,8 @@ pub enum SignerFault {
     Err(u8),
     /// return Ok(seeded bytes of this length) — used only for the verbatim-embedding oracle
     Opaque(u32),
+    /// the signer's client library panics (unwinds through rcgen)
+    Panic,
 }
 
 pub const ERR_VARIANTS: usize = 10;
@@ -102,7 +104,36 @@ impl rcgen::RemoteKeyPair for SimSigner {
             Some(SignerFault::Err(v)) => (Err(v), false),
             Some(SignerFault::Opaque(n)) => {
                 let mut r = simcore::Rng::new(0x0badc0de ^ seq as u64 ^ ((n as u64) << 20));
-                (Ok(r.bytes(n as usize)), true)
+                let mut b = r.bytes(n as usize);
+                // signatures are opaque to rcgen whatever they look like: values that resemble
+                // DER, padding or emptiness must be embedded verbatim too
+                let n = n as usize;
+                match (seq + n) % 7 {
+                    1 if n >= 3 => {
+                        b[0] = 0x30;
+                        b[1] = (n as u8).wrapping_sub(if n % 2 == 0 { 2 } else { 9 });
+                        b[2] = 0x02;
+                    }
+                    2 => b.iter_mut().for_each(|x| *x = 0),
+                    3 => b.iter_mut().for_each(|x| *x = 0xff),
+                    4 if n >= 8 => b[n / 2..].iter_mut().for_each(|x| *x = 0),
+                    5 if n >= 2 => {
+                        b[0] = 0;
+                        b[1] = 0;
+                    }
+                    6 if n >= 4 => {
+                        b[0] = 0x30;
+                        b[1] = 0x82;
+                        b[2] = 0x00;
+                        b[3] = 0x02;
+                    }
+                    _ => {}
+                }
+                (Ok(b), true)
+            }
+            Some(SignerFault::Panic) => {
+                self.bus.0.lock().unwrap().calls[seq].ret = Err(254);
+                panic!("simulated HSM client library panic");
             }
             None => (Ok(self.key.sign(msg)), false),
         };
